@@ -244,6 +244,10 @@ def make_arg(fam, rng, shape, val, where, style, f_extra=None):
         elif r < 0.65:
             f["num_args"] = (2, 2)
             attrs.append("num_args = 2")
+        elif r < 0.85 and where != "pos":
+            # occurrences may be empty
+            f["num_args"] = (0, 2)
+            attrs.append("num_args = 0..=2")
     f["attrs"] = attrs
     return f
 
